@@ -72,6 +72,10 @@ def _spell(y, how):
         return np.array([y], dtype=float)
     if how == "arr11":
         return np.array([[y]], dtype=float)
+    if how == "np32":
+        return np.float32(y)  # single-precision models are common; the value observed is the rounded one
+    if how == "arr0":
+        return np.array(float(y))  # 0-d array (what np.sum over a reshaped array or a framework tensor conversion returns)
     raise ValueError(how)
 
 
